@@ -480,6 +480,12 @@ class ProfileFeatureCounter(AbstractCounter):
             self.group_numeric_ids = {}
         self.current_group_id = 1
 
+    @staticmethod
+    def get_feature_id(feature_info):
+        # the same gene can be loaded for several regions of a chromosome and gets new FeatureInfo ids every time,
+        # identify features by their coordinates to keep a single row per feature
+        return feature_info.chr_id, feature_info.start, feature_info.end, feature_info.strand
+
     def add_read_info_from_profile(self, gene_feature_profile, feature_property_map,
                                    read_group = AbstractReadGrouper.default_group_id):
         if read_group not in self.group_numeric_ids:
@@ -489,12 +495,12 @@ class ProfileFeatureCounter(AbstractCounter):
         group_id = self.group_numeric_ids[read_group]
         for i in range(len(gene_feature_profile)):
             if gene_feature_profile[i] == 1:
-                feature_id = feature_property_map[i].id
+                feature_id = self.get_feature_id(feature_property_map[i])
                 self.inclusion_feature_counter[feature_id].inc(group_id)
                 if feature_id not in self.feature_name_dict:
                     self.feature_name_dict[feature_id] = feature_property_map[i].to_str()
             elif gene_feature_profile[i] == -1:
-                feature_id = feature_property_map[i].id
+                feature_id = self.get_feature_id(feature_property_map[i])
                 self.exclusion_feature_counter[feature_id].inc(group_id)
                 if feature_id not in self.feature_name_dict:
                     self.feature_name_dict[feature_id] = feature_property_map[i].to_str()
